@@ -3,6 +3,7 @@ package util
 import (
 	"github.com/pkg/errors"
 	"io"
+	"os"
 	"sync"
 	"time"
 )
@@ -233,6 +234,28 @@ type OutQueue struct {
 	queueHasData   bool         // Boolean specifiying if the queue is full or not
 	queueNotifiers []func()     // A list of waiters to notify when the queue is emptied
 	writeDeadline  time.Time
+	closed         bool // The connection is over: nothing will be acknowledged any more
+}
+
+// Close marks the end of the stream and wakes up writers waiting for an acknowledgement that cannot arrive any more.
+func (q *OutQueue) Close() {
+	q.queueMutex.Lock()
+	q.closed = true
+	for _, f := range q.queueNotifiers {
+		f()
+	}
+	q.queueNotifiers = q.queueNotifiers[0:0]
+	q.queueMutex.Unlock()
+}
+
+// closedWithData tells a writer that was woken up whether what it queued can still be delivered
+func (q *OutQueue) closedWithData() error {
+	q.queueMutex.Lock()
+	defer q.queueMutex.Unlock()
+	if q.closed && q.queueHasData {
+		return os.ErrClosed
+	}
+	return nil
 }
 
 // NextChunk will return the first non-acked chunk from the queue. It will return nil if the queue is empty
@@ -315,6 +338,10 @@ func (q *OutQueue) waitEmptyQueue() error {
 		q.queueMutex.Unlock()
 		return nil
 	}
+	if q.closed {
+		q.queueMutex.Unlock()
+		return os.ErrClosed
+	}
 
 	// (room for one value: the notifier must not block when the waiter has already left on its deadline)
 	wait := make(chan struct{}, 1)
@@ -328,14 +355,14 @@ func (q *OutQueue) waitEmptyQueue() error {
 		select {
 		case <-wait:
 		}
-		return nil
+		return q.closedWithData()
 	} else {
 		// Wait for the notification that the queue has emptied
 		select {
 		case <-time.After(q.writeDeadline.Sub(time.Now())):
 			return ErrDeadlineExceeded
 		case <-wait:
-			return nil
+			return q.closedWithData()
 		}
 	}
 }
